@@ -290,6 +290,12 @@ fn stream_enc(a: &Args) {
 }
 
 fn gen_keyset(r: &mut Rng, mode: u64, center: i64) -> Vec<Vec<u8>> {
+    if mode == 5 {
+        // dense run of consecutive integers (trie nodes with 16..256 children)
+        let len = *r.pick(&RUN_LENS) as i64;
+        let start = center * 300 + *r.pick(&[0i64, 0, 200, 256 - len]);
+        return (0..len).map(|j| encode_i64(start + j)).collect();
+    }
     let n = match r.below(6) { 0 => 0, 1 => 1, _ => 1 + r.below(7) };
     let mut ks: Vec<Vec<u8>> = (0..n).map(|_| match mode {
         0 => encode_i64(center + r.range(-6, 6)),
@@ -308,7 +314,7 @@ fn stream_trie(a: &Args) {
     for i in 0..a.cases {
         if a.only.is_some_and(|o| o != i) { continue; }
         let mut r = Rng::for_case(a.seed, "trie", i);
-        let mode = r.below(5);
+        let mode = r.below(6);
         let mut ks = gen_keyset(&mut r, mode, 0);
         for _ in 0..r.below(3) { let more = gen_keyset(&mut r, mode, 3); ks.extend(more); }
         ks.sort(); ks.dedup();
@@ -341,8 +347,8 @@ fn stream_surf(a: &Args) {
     for i in 0..a.cases {
         if a.only.is_some_and(|o| o != i) { continue; }
         let mut r = Rng::for_case(a.seed, "surf", i);
-        let mode = r.below(5);
-        let nz = match r.below(4) { 0 => 1 + r.below(3), 1 => 11 + r.below(30), _ => 1 + r.below(40) };
+        let mode = r.below(6);
+        let nz = if mode == 5 { 1 + r.below(4) } else { match r.below(4) { 0 => 1 + r.below(3), 1 => 11 + r.below(30), _ => 1 + r.below(40) } };
         // clustered: zone z holds values around z*spread, so range probes hit a varying share
         let spread = *r.pick(&[0i64, 1, 5, 20]);
         let zones: Vec<(u32, Vec<Vec<u8>>)> = (0..nz).map(|z| (z as u32 * if r.chance(1, 5) { 3 } else { 1 } + 0, gen_keyset(&mut r, mode, z as i64 * spread))).collect();
@@ -831,6 +837,207 @@ fn stream_xor(a: &Args) {
     s.finish();
 }
 
+/// One population of zones given by their byte keys, probed through `zones_overlapping_ge/le`;
+/// writes the `surf`-format op line and judges every (zone, probe) against a brute-force scan.
+fn surf_case(s: &mut Stream, i: u64, zones: &[(u32, Vec<Vec<u8>>)], probes: &[(&str, Vec<u8>)]) {
+    let entries: Vec<ZoneSurfEntry> = zones.iter().map(|(z, ks)| ZoneSurfEntry { zone_id: *z, trie: SurfTrie::build_from_sorted(ks) }).collect();
+    let zsf = ZoneSurfFilter { entries };
+    let op = format!("surf {} {} {} {}", zones.len(),
+        zones.iter().map(|(z, ks)| format!("{z} {} {}", ks.len(), ks.iter().map(|k| hex(k)).collect::<Vec<_>>().join(" ")).trim_end().to_string()).collect::<Vec<_>>().join(" "),
+        probes.len(), probes.iter().map(|(k, b)| format!("{k} {}", hex(b))).collect::<Vec<_>>().join(" "));
+    let mut outs = Vec::with_capacity(probes.len());
+    for (kind, b) in probes {
+        let incl = kind.ends_with('i');
+        let got: Vec<u32> = if kind.starts_with('g') { zsf.zones_overlapping_ge(b, incl, "seg") } else { zsf.zones_overlapping_le(b, incl, "seg") }
+            .iter().map(|c| c.zone_id).collect();
+        outs.push(if got.is_empty() { "-".to_string() } else { got.iter().map(|z| z.to_string()).collect::<Vec<_>>().join(",") });
+        for (z, ks) in zones {
+            let m = ks.iter().any(|k| match *kind { "gi" => k >= b, "ge" => k > b, "li" => k <= b, _ => k < b });
+            if !m { continue; }
+            if got.contains(z) { s.oracle_ok(); } else {
+                let class = if kind.starts_with('l') && has_prefix_pair(ks) { "surf-le-prefix-keys" } else { "-" };
+                s.oracle_fail(i, class, &format!("zone {z} ({} keys, first {}, last {}) holds a key satisfying {kind} {} but is not reported",
+                    ks.len(), ks.first().map(|k| hex(k)).unwrap_or_default(), ks.last().map(|k| hex(k)).unwrap_or_default(), hex(b)));
+            }
+        }
+    }
+    s.case(&op, &outs.join(" "), true);
+}
+
+const RUN_LENS: [u64; 13] = [16, 17, 31, 32, 33, 48, 63, 64, 65, 96, 128, 255, 256];
+
+/// Label search (`simd_first_ge` / `simd_last_le` are private; reached through
+/// `zones_overlapping_ge/le`): one trie node with a chosen label array of length 0..=70 (and the
+/// dense sizes up to 256) below a 0-3 byte prefix, probed with **every** byte value for all four
+/// bounds, on the node level and one level below.
+fn stream_lbl(a: &Args) {
+    let mut s = Stream::create(&a.out, "lbl");
+    for i in 0..a.cases {
+        if a.only.is_some_and(|o| o != i) { continue; }
+        let mut r = Rng::for_case(a.seed, "lbl", i);
+        let n = if i <= 70 { i } else if r.chance(1, 3) { *r.pick(&RUN_LENS) } else { r.below(71) } as usize;
+        // n distinct labels: a consecutive run, or a random subset
+        let labels: Vec<u8> = if r.chance(1, 2) || n > 200 {
+            let start = r.below(257 - n as u64) as usize;
+            (start..start + n).map(|x| x as u8).collect()
+        } else {
+            let mut all: Vec<u8> = (0..=255u8).collect();
+            r.shuffle(&mut all);
+            let mut l: Vec<u8> = all[..n].to_vec();
+            l.sort();
+            l
+        };
+        let prefix: Vec<u8> = (0..r.below(4)).map(|_| r.below(256) as u8).collect();
+        let two_level = r.chance(1, 2);
+        let keys: Vec<Vec<u8>> = labels.iter().map(|l| {
+            let mut k = prefix.clone();
+            k.push(*l);
+            if two_level { k.push(*r.pick(&[0u8, 1, 127, 128, 200, 255])); }
+            k
+        }).collect();
+        let y = *r.pick(&[0u8, 1, 127, 128, 200, 255]);
+        let mut probes: Vec<(&str, Vec<u8>)> = Vec::with_capacity(2048);
+        for b in 0..=255u8 {
+            for kind in ["gi", "ge", "li", "le"] {
+                let mut t = prefix.clone();
+                t.push(b);
+                probes.push((kind, t.clone()));
+                t.push(y);
+                probes.push((kind, t));
+            }
+        }
+        s.tally(&format!("labels:{}", match n { 0 => "0", 1..=15 => "1-15", 16 => "16", 17..=31 => "17-31", 32 => "32", 33..=47 => "33-47", 48 => "48", 49..=63 => "49-63", 64 => "64", 65..=70 => "65-70", 96 => "96", 128 => "128", 255 => "255", 256 => "256", _ => "other" }));
+        s.tally(if two_level { "two-level" } else { "one-level" });
+        s.tally_n("probes", probes.len() as u64);
+        surf_case(&mut s, i, &[(0, keys)], &probes);
+    }
+    s.finish();
+}
+
+/// Dense runs of consecutive integers through the real builder (`build_all_filtered` -> `.zsrf` ->
+/// load), probed at every position of the run (and two beyond each end) with < <= > >=
+/// (`zones_overlapping_*` on `encode_value(literal)`, a sample also through `RangePruner`), and
+/// with = through the zone XOR index built from the same zone plans (oracle only).
+fn stream_dense(a: &Args) {
+    let mut s = Stream::create(&a.out, "dense");
+    let root = a.out.join("dense-tmp");
+    for i in 0..a.cases {
+        if a.only.is_some_and(|o| o != i) { continue; }
+        let mut r = Rng::for_case(a.seed, "dense", i);
+        let len = if r.chance(1, 6) { 1 + r.below(80) } else { RUN_LENS[(i % 13) as usize] } as i128;
+        let k = r.below(1 << 20) as i128;
+        let base: i128 = match r.below(12) {
+            0 => 0,
+            1 => 256 * k,
+            2 => 256 * k + (256 - len),              // run ends on ..ff
+            3 => 256 * k + 200,                       // crosses a byte boundary when len > 56
+            4 => -len,                                // ends at -1
+            5 => -(len / 2),                          // straddles 0
+            6 => i64::MAX as i128 - len + 1,          // ends at i64::MAX
+            7 => i64::MIN as i128,
+            8 => (1i128 << 32) - len / 2,
+            9 => 65536 * k + 65536 - len,
+            10 => r.range(-100000, 100000) as i128,
+            _ => 256 * k + r.below(256) as i128,
+        };
+        let ulane = r.chance(1, 8) && base >= 2 && base + len + 2 < (1i128 << 62);
+        let val = |v: i128| -> ScalarValue {
+            if ulane { ScalarValue::Utf8(((1u64 << 63) + v as u64).to_string()) } else { ScalarValue::Int64(v as i64) }
+        };
+        let inrange = |v: i128| ulane || (v >= i64::MIN as i128 && v <= i64::MAX as i128);
+        // zone layout: 0 = the whole run | run split in two zones | run + a sparse lower zone
+        let layout = r.below(4);
+        let mut zones: Vec<(u32, Vec<i128>)> = vec![];
+        let run: Vec<i128> = (0..len).map(|j| base + j).collect();
+        match layout {
+            0 | 1 => zones.push((0, run.clone())),
+            2 => { let h = (len / 2).max(1) as usize; zones.push((0, run[..h.min(run.len())].to_vec())); if h < run.len() { zones.push((1, run[h..].to_vec())); } }
+            _ => { zones.push((0, (0..4).map(|j| base - 1000 - 7 * j).filter(|v| inrange(*v)).collect())); zones.push((1, run.clone())); }
+        }
+        zones.retain(|z| !z.1.is_empty());
+        if r.chance(1, 2) { for z in zones.iter_mut() { r.shuffle(&mut z.1); } }
+        let lo = base - 2;
+        let hi = base + len + 1;
+        let positions: Vec<i128> = (lo..=hi).filter(|v| inrange(*v)).collect();
+        let mut probes: Vec<(&str, ScalarValue)> = vec![];
+        for p in &positions { for o in ["gt", "gte", "lt", "lte"] {
+            let lit = if !ulane && p.abs() < (1 << 52) && r.chance(1, 8) { ScalarValue::Float64(*p as f64) } else { val(*p) };
+            probes.push((o, lit));
+        } }
+        let base_dir = root.join(format!("c{i}"));
+        let segdir = base_dir.join("00001");
+        std::fs::create_dir_all(&segdir).unwrap();
+        let mut row = 0usize;
+        let plans: Vec<ZonePlan> = zones.iter().map(|(z, vals)| {
+            let events = vals.iter().enumerate().map(|(k, v)| {
+                let mut b = EventBuilder::new();
+                b.event_type = "ev".into(); b.context_id = format!("c{k}"); b.timestamp = 1_700_000_000 + (row + k) as u64;
+                b.payload.insert("f".into(), val(*v));
+                b.build()
+            }).collect::<Vec<_>>();
+            let p = ZonePlan { id: *z, start_index: row, end_index: row + vals.len() - 1, events, uid: "u1".into(), event_type: "ev".into(), segment_id: 1, created_at: 0 };
+            row += vals.len();
+            p
+        }).collect();
+        let allowed: HashSet<String> = ["f".to_string()].into_iter().collect();
+        ZoneSurfFilter::build_all_filtered(&plans, &segdir, &allowed).unwrap();
+        let zsf = ZoneSurfFilter::load(&segdir.join("u1_f.zsrf")).unwrap();
+        let in_filter: Vec<u32> = zsf.entries.iter().map(|e| e.zone_id).collect();
+        let pruner = RangePruner { artifacts: ZoneArtifacts::new(&base_dir, None) };
+        let op = format!("seg {} {} {} {}", zones.len(),
+            zones.iter().map(|(z, vs)| format!("{z} {} {}", vs.len(), vs.iter().map(|v| sv_tok(&val(*v))).collect::<Vec<_>>().join(" "))).collect::<Vec<_>>().join(" "),
+            probes.len(), probes.iter().map(|(o, v)| format!("{o} {}", sv_tok(v))).collect::<Vec<_>>().join(" "));
+        let mut outs = Vec::with_capacity(probes.len());
+        for (n, (o, lit)) in probes.iter().enumerate() {
+            let bytes = encode_value(lit).unwrap();
+            let got: Vec<u32> = match *o {
+                "gt" => zsf.zones_overlapping_ge(&bytes, false, "00001"), "gte" => zsf.zones_overlapping_ge(&bytes, true, "00001"),
+                "lt" => zsf.zones_overlapping_le(&bytes, false, "00001"), _ => zsf.zones_overlapping_le(&bytes, true, "00001"),
+            }.iter().map(|c| c.zone_id).collect();
+            if n % 37 == (i % 37) as usize {
+                // the same probe through the pruner (file load + threshold rule; <= 10 zones: no fallback)
+                let cop = op_of(o);
+                let via = pruner.apply_surf_only(&PruneArgs { segment_id: "00001", uid: "u1", column: "f", value: Some(lit), op: Some(&cop) })
+                    .map(|v| v.iter().map(|c| c.zone_id).collect::<Vec<u32>>());
+                if via.as_ref() != Some(&got) { s.oracle_fail(i, "-", &format!("RangePruner answers {via:?}, zones_overlapping {got:?} for {o} {}", sv_tok(lit))); }
+                s.tally("probe-also-through-RangePruner");
+            }
+            outs.push(if got.is_empty() { "-".to_string() } else { got.iter().map(|z| z.to_string()).collect::<Vec<_>>().join(",") });
+            let ln = num_of(lit).unwrap();
+            for (z, vals) in &zones {
+                if !vals.iter().any(|x| holds(o, num_cmp(num_of(&val(*x)).unwrap(), ln))) { continue; }
+                if got.contains(z) { s.oracle_ok(); } else {
+                    s.oracle_fail(i, "-", &format!("zone {z} (min {}, max {}, {} distinct) holds a row with f {o} {} but is not reported",
+                        vals.iter().min().unwrap(), vals.iter().max().unwrap(), vals.len(), sv_tok(lit)));
+                }
+            }
+        }
+        // `=` at every position: zone XOR index from the same plans
+        if let Some(idx) = ZoneXorFilterIndex::build_for_field("u1", "f", &plans) {
+            for p in &positions {
+                let got = idx.zones_maybe_containing(&val(*p));
+                for (z, vals) in &zones {
+                    if !vals.contains(p) { continue; }
+                    if got.contains(z) { s.oracle_ok(); } else {
+                        let class = if idx.filters.contains_key(z) { "-" } else { "xor-zone-filter-missing" };
+                        s.oracle_fail(i, class, &format!("zone {z} holds f = {} but the XOR index does not report it", sv_tok(&val(*p))));
+                    }
+                }
+            }
+            s.tally_n("eq-probes(xor index)", positions.len() as u64);
+        }
+        s.tally(&format!("run-length:{}", if RUN_LENS.contains(&(len as u64)) { len.to_string() } else { "other(1-80)".into() }));
+        s.tally(&format!("layout:{}", match layout { 0 | 1 => "run-is-one-zone", 2 => "run-split-over-two-zones", _ => "sparse-zone+run" }));
+        s.tally(if ulane { "lane:U(decimal strings above i64::MAX)" } else { "lane:I" });
+        s.tally_n("range-probes", probes.len() as u64);
+        let imp = format!("zones={} {}", if in_filter.is_empty() { "-".into() } else { in_filter.iter().map(|z| z.to_string()).collect::<Vec<_>>().join(",") }, outs.join(" "));
+        s.case(&op, &imp, true);
+        let _ = std::fs::remove_dir_all(&base_dir);
+    }
+    let _ = std::fs::remove_dir_all(&root);
+    s.finish();
+}
+
 /// Fixed minimal witnesses of the proposed findings, run against the real code (and, through the
 /// same op lines, against the model). Every case is expected to fail the oracle with its class.
 fn stream_wit(a: &Args) {
@@ -945,6 +1152,8 @@ fn main() {
         "cal" => stream_cal(&a),
         "xor" => stream_xor(&a),
         "wit" => stream_wit(&a),
+        "lbl" => stream_lbl(&a),
+        "dense" => stream_dense(&a),
         other => {
             eprintln!("unknown stream {other}");
             std::process::exit(2);
